@@ -527,7 +527,16 @@ class CFG:
                 productions.append(
                     Production(new_variables_d_local[production.head],
                                body))
-            final_replacement[ter] = new_variables_d_local[cfg.start_symbol]
+            if cfg.start_symbol is None:
+                # A grammar without start symbol (CFG(), the empty
+                # intersection) generates nothing: a variable with no rule
+                temp = Variable("#EMPTY#" + SUBS_SUFFIX + str(idx))
+                new_vars.add(temp)
+                idx += 1
+                final_replacement[ter] = temp
+            else:
+                final_replacement[ter] = \
+                    new_variables_d_local[cfg.start_symbol]
             terminals = terminals.union(cfg.terminals)
         for production in self._productions:
             body = []
@@ -540,7 +549,7 @@ class CFG:
                     body.append(cfgobj)
             productions.append(Production(new_variables_d[production.head],
                                           body))
-        return CFG(new_vars, None, new_variables_d[self._start_symbol],
+        return CFG(new_vars, None, new_variables_d.get(self._start_symbol),
                    set(productions))
 
     def union(self, other: "CFG") -> "CFG":
@@ -769,13 +778,22 @@ class CFG:
             The equivalent PDA when accepting on empty stack
         """
         state = pda.State("q")
-        pda_object_creator = PDAObjectCreator(self._terminals, self._variables)
+        start_symbol = self._start_symbol
+        variables = self._variables
+        if start_symbol is None:
+            # No start symbol, no word: the stack starts with a fresh
+            # symbol which no transition pops
+            start_symbol = Variable("#EMPTY#")
+            while start_symbol in variables:
+                start_symbol = Variable(start_symbol.value + "#")
+            variables = variables.union({start_symbol})
+        pda_object_creator = PDAObjectCreator(self._terminals, variables)
         input_symbols = {pda_object_creator.get_symbol_from(x)
                          for x in self._terminals}
         stack_alphabet = {pda_object_creator.get_stack_symbol_from(x)
-                          for x in self._terminals.union(self._variables)}
+                          for x in self._terminals.union(variables)}
         start_stack_symbol = pda_object_creator.get_stack_symbol_from(
-            self._start_symbol)
+            start_symbol)
         new_pda = pda.PDA(states={state},
                           input_symbols=input_symbols,
                           stack_alphabet=stack_alphabet,
